@@ -125,6 +125,10 @@ type Enc struct {
 	// non-nil while the body of a closure is encoded in place of a call to it
 	inl      *inlineFrame
 	ninlined int
+	// assert clauses: instruction cut-off for name resolution, which ones fired
+	resolveCut int
+	assertDone map[string]bool
+	assertSeen []int
 }
 
 // sliceRoot: v is root[shift:...] (a chain of reslices); cells of v are addressed through root
@@ -779,6 +783,9 @@ func (e *Enc) run() (err error) {
 	e.retOrd = 0
 	e.warnings = nil
 	e.deferred = nil
+	e.assertDone = nil
+	e.assertSeen = nil
+	e.resolveCut = 0
 
 	e.entry = &State{m: map[string]string{}, b: map[string]string{}, enc: e}
 	e.touch(allocHeap)
@@ -838,6 +845,19 @@ func (e *Enc) run() (err error) {
 	order := e.topoOrder()
 	for _, b := range order {
 		e.encodeBlock(b)
+	}
+	if e.fc != nil {
+		for i, cl := range e.fc.Asserts {
+			seen := false
+			for _, j := range e.assertSeen {
+				if j == i {
+					seen = true
+				}
+			}
+			if !seen {
+				panic(fmt.Errorf("contract error (%s assert#%d): no statement of the function is on a line containing %q", e.key, i+1, cl.At))
+			}
+		}
 	}
 	return nil
 }
@@ -1219,11 +1239,26 @@ func (e *Enc) encodeBlock(b *ssa.BasicBlock) {
 		}
 	}
 
-	for _, in := range b.Instrs {
+	curLine := 0
+	for idx, in := range b.Instrs {
 		if _, ok := in.(*ssa.Phi); ok {
 			continue
 		}
+		if e.inl == nil && e.fc != nil && len(e.fc.Asserts) > 0 {
+			if pos := in.Pos(); pos.IsValid() {
+				if _, isDbg := in.(*ssa.DebugRef); !isDbg {
+					line := fn.Prog.Fset.Position(pos).Line
+					if line != curLine {
+						e.checkAsserts(b, idx, curLine, st)
+						curLine = line
+					}
+				}
+			}
+		}
 		e.encodeInstr(in, st)
+	}
+	if e.inl == nil && e.fc != nil && len(e.fc.Asserts) > 0 {
+		e.checkAsserts(b, len(b.Instrs), curLine, st)
 	}
 
 	// successors
@@ -1391,6 +1426,62 @@ func (e *Enc) loopResolver(li *loopInfo, st0 *State, phiVal func(*ssa.Phi) strin
 	return self
 }
 
+// checkAsserts generates the obligations of `assert ... at "text"` clauses whose text occurs on the
+// source line whose statements have just been encoded (the instructions of block b before index cut).
+func (e *Enc) checkAsserts(b *ssa.BasicBlock, cut int, line int, st *State) {
+	if line == 0 {
+		return
+	}
+	var text string
+	for _, in := range b.Instrs {
+		if pos := in.Pos(); pos.IsValid() && e.fn.Prog.Fset.Position(pos).Line == line {
+			text = e.ctx.sourceLine(e.fn, pos)
+			break
+		}
+	}
+	if text == "" {
+		return
+	}
+	for i, cl := range e.fc.Asserts {
+		if !strings.Contains(text, cl.At) {
+			continue
+		}
+		if e.assertDone == nil {
+			e.assertDone = map[string]bool{}
+		}
+		key := fmt.Sprintf("%d@%d@%d", i, line, b.Index)
+		if e.assertDone[key] {
+			continue
+		}
+		e.assertDone[key] = true
+		save := e.resolveCut
+		e.resolveCut = cut
+		c := e.evalCtx(st, e.entry, e.params, func(name string, rs *State) (TV, bool) { return e.resolveLocal(name, b, rs) }, fmt.Sprintf("%s assert#%d", e.key, i+1))
+		goal := c.boolTerm(cl.E)
+		e.resolveCut = save
+		label := cl.Label
+		if label == "" {
+			label = fmt.Sprint(i + 1)
+		}
+		n := e.count("assert." + label)
+		e.oblig("assert", fmt.Sprintf("assert[%s]#%d", label, n), goal, cl.Src+"   [after the statement at "+posOfLine(e.fn, b, line)+"]", cl)
+		e.fact(goal)
+		e.assertSeen = append(e.assertSeen, i)
+	}
+}
+
+func posOfLine(fn *ssa.Function, b *ssa.BasicBlock, line int) string {
+	for _, in := range b.Instrs {
+		if pos := in.Pos(); pos.IsValid() {
+			p := fn.Prog.Fset.Position(pos)
+			if p.Line == line {
+				return fmt.Sprintf("%s:%d", p.Filename, p.Line)
+			}
+		}
+	}
+	return fmt.Sprint(line)
+}
+
 // resolveLocal finds the value of a source-level variable visible at the end of
 // block `at` (searching dominating DebugRefs, parameters and named allocations).
 func (e *Enc) resolveLocal(name string, at *ssa.BasicBlock, st *State) (TV, bool) {
@@ -1422,7 +1513,11 @@ func (e *Enc) resolveLocal(name string, at *ssa.BasicBlock, st *State) (TV, bool
 		}
 	}
 	for b := at; b != nil; b = b.Idom() {
-		for i := len(b.Instrs) - 1; i >= 0; i-- {
+		start := len(b.Instrs) - 1
+		if b == at && e.resolveCut > 0 && e.resolveCut <= len(b.Instrs) {
+			start = e.resolveCut - 1
+		}
+		for i := start; i >= 0; i-- {
 			switch in := b.Instrs[i].(type) {
 			case *ssa.DebugRef:
 				if in.Object() == nil || in.Object().Name() != name {
